@@ -11,7 +11,7 @@ use std::str::FromStr;
 use std::sync::atomic::{AtomicU64, Ordering};
 use std::sync::Arc;
 
-pub const COUNTERS: &[&str] = &["moves_round_tripped", "squares_round_tripped", "strings_parsed_as_move", "strings_parsed_as_square", "move_parses_ok", "square_parses_ok", "strings_with_non_ascii", "max_length", "long_move_texts", "long_square_texts"];
+pub const COUNTERS: &[&str] = &["moves_round_tripped", "squares_round_tripped", "strings_parsed_as_move", "strings_parsed_as_square", "move_parses_ok", "square_parses_ok", "strings_with_non_ascii", "max_length", "long_move_texts", "long_square_texts", "code_point_texts", "padded_texts"];
 
 pub const ALPHABET: &[&str] = &["a", "b", "c", "d", "e", "f", "g", "h", "1", "2", "3", "4", "5", "6", "7", "8", "q", "r", "n", "i", "9", "0", "Q", " ", "é", "€", "😀", "x", "-", "B", "\n", "\r", "ű", "ı"];
 /// Suffix alphabet of the long-text sweep: the trie alphabet plus "truncation aliases" — 2-, 3- and
@@ -98,7 +98,7 @@ fn round_trips(run: &Run) {
     }
 }
 
-pub const RULE: &str = "all 20480 move values and all 64 squares: rendering = source, destination, optional lower-case promotion letter, and parses back to the identical value; every string of length <= L (L = 5 quick, 6 thorough) over a 34-symbol alphabet {a-h, 1-8, q r n i 9 0 Q B x - space, LF, CR, the 2/3/4-byte characters e-acute, euro sign, an emoji, and two 2-byte characters whose low byte is 'q' and '1'} walked as a trie (every prefix is a case), plus every well-formed 4-character move text followed by every suffix of up to 2 (thorough 3) symbols over that alphabet extended by 14 more symbols (2/3/4-byte characters whose low byte equals r, n, b, a, h, 8, q, 4; tab, =, +, #) and every square text followed by every suffix of up to 3 (4) symbols: no panic in ChessMove::from_str / Square::from_str, and Ok(v) implies v.to_string() is a prefix of the input. distinct_nontrivial = strings on which at least one of the two parsers succeeded";
+pub const RULE: &str = "all 20480 move values and all 64 squares: rendering = source, destination, optional lower-case promotion letter, and parses back to the identical value; every string of length <= L (L = 5 quick, 6 thorough) over a 34-symbol alphabet {a-h, 1-8, q r n i 9 0 Q B x - space, LF, CR, the 2/3/4-byte characters e-acute, euro sign, an emoji, and two 2-byte characters whose low byte is 'q' and '1'} walked as a trie (every prefix is a case), plus every well-formed 4-character move text followed by every suffix of up to 2 (thorough 3) symbols over that alphabet extended by 14 more symbols (2/3/4-byte characters whose low byte equals r, n, b, a, h, 8, q, 4; tab, =, +, #) and every square text followed by every suffix of up to 3 (4) symbols: every one of the 1 112 064 Unicode scalar values substituted for and inserted before every character of five well-formed texts; five texts padded with each of 4 fill characters to EVERY length 0..=1100 and 2^k +- 12 (k = 11..20) bytes and closed by each of 8 final characters: no panic in ChessMove::from_str / Square::from_str, and Ok(v) implies v.to_string() is a prefix of the input. distinct_nontrivial = strings on which at least one of the two parsers succeeded";
 
 pub fn run(tier: Tier) -> i32 {
     let run = Arc::new(Run::new("C13", tier, COUNTERS));
@@ -169,6 +169,81 @@ pub fn run(tier: Tier) -> i32 {
             k
         })
         .sum();
+    // every Unicode scalar value (1 112 064 of them) substituted for, and inserted before, every
+    // character of a few well-formed texts: byte-level table lookups, masks and casts cannot alias
+    // a multi-byte character into a meaningful letter or digit unnoticed
+    let cp_bases: &[&str] = &["e2e4", "e7e8q", "a1h8", "h7g8n", "e4"];
+    let cp_count: u64 = (0..=0x10FFu32)
+        .into_par_iter()
+        .map(|hi| {
+            let mut k = 0u64;
+            let mut buf = String::with_capacity(16);
+            for lo in 0..=0xFFu32 {
+                let c = match char::from_u32(hi * 256 + lo) {
+                    Some(c) => c,
+                    None => continue,
+                };
+                if run.has_violation() {
+                    break;
+                }
+                for base in cp_bases {
+                    let chars: Vec<char> = base.chars().collect();
+                    for i in 0..=chars.len() {
+                        // insertion before position i
+                        buf.clear();
+                        buf.extend(chars[..i].iter());
+                        buf.push(c);
+                        buf.extend(chars[i..].iter());
+                        judge(&run, &buf, &ok_m, &ok_s);
+                        k += 1;
+                        if i < chars.len() {
+                            buf.clear();
+                            buf.extend(chars[..i].iter());
+                            buf.push(c);
+                            buf.extend(chars[i + 1..].iter());
+                            judge(&run, &buf, &ok_m, &ok_s);
+                            k += 1;
+                        }
+                    }
+                }
+            }
+            k
+        })
+        .sum();
+    run.add("code_point_texts", cp_count);
+    // padded texts of EVERY length up to 1100 bytes and around 2^k (k <= 20): a length kept in a narrow
+    // integer, or compared modulo 2^8 / 2^16, must not change the verdict
+    let mut pads: Vec<usize> = (0..=1100usize).collect();
+    for k in 11..=20u32 {
+        for d in 0..=12usize {
+            pads.push((1usize << k) + d);
+            pads.push((1usize << k) - d);
+        }
+    }
+    let pad_count: u64 = pads
+        .par_iter()
+        .map(|l| {
+            let mut k = 0u64;
+            for base in ["e2e4", "e7e8", "a7a8q", "e4", ""] {
+                for fill in ['x', 'q', '1', ' '] {
+                    for last in ["", "q", "n", "r", "b", "k", "1", "h"] {
+                        if run.has_violation() {
+                            return k;
+                        }
+                        let mut t = String::with_capacity(base.len() + l + 1);
+                        t.push_str(base);
+                        t.extend(std::iter::repeat(fill).take(*l));
+                        t.push_str(last);
+                        judge(&run, &t, &ok_m, &ok_s);
+                        k += 1;
+                    }
+                }
+            }
+            k
+        })
+        .sum();
+    run.add("padded_texts", pad_count);
+    let long_moves = long_moves + cp_count + pad_count;
     run.add("long_move_texts", long_moves);
     run.add("long_square_texts", long_squares);
     let n = n + long_moves + long_squares;
